@@ -198,8 +198,10 @@ Theorem C08_oneof_type_plus_exactly_that_key : forall f env ps m j, wire_oneof f
                  j = JObj [(txt_type, JStr (p_json p)); (p_json p, jv)] /\ wire_value f env (p_ty p) v jv.
 Proof. exact spec_oneof_framing. Qed.
 Print Assumptions C08_oneof_type_plus_exactly_that_key.
+(* ... and for a j5 Any that stores JSON text, the value member is that text's JSON value *)
 Theorem C08_any_type_value : forall f env pb v j, wire_value f env (FAny pb) v j ->
-  exists m jv, v = VMsg m /\ j = JObj [(txt_type, JStr (any_type_name pb m)); (txt_value, jv)].
+  exists m jv, v = VMsg m /\ j = JObj [(txt_type, JStr (any_type_name pb m)); (txt_value, jv)] /\
+               (forall s, pb = false -> msg_get 3 m = Some (VBytes s) -> strict_parse s = Some jv).
 Proof. exact spec_any_framing. Qed.
 Print Assumptions C08_any_type_value.
 Theorem C08_names_are_json_names : forall f env ps m ms, wire_members f env ps m ms ->
